@@ -32,6 +32,7 @@ func init() {
 
 func runC18(c *eng.Ctx) {
 	p := c.P
+	newMasterStartsFromAnEmptyState(c)
 	addReplicaAppends(c)
 	watchResyncReachesTheListeners(c)
 	reportedStateIsTheLiveState(c)
